@@ -57,8 +57,12 @@ class C16Saturate(Scenario):
         if r < 70:
             return {"op": "remove", "k": k, "n": self.gen_amount(rng)}
         if r < 88:
-            return {"op": "merge", "adds": [[rng.below(3), self.gen_amount(rng) * (-1 if rng.chance(1, 4) else 1)]
-                                            for _ in range(rng.between(1, 3))]}
+            st = {"op": "merge", "adds": [[rng.below(3), self.gen_amount(rng) * (-1 if rng.chance(1, 4) else 1)]
+                                          for _ in range(rng.between(1, 3))]}
+            if rng.chance(1, 3):
+                # the join is followed at once by a remove / add, with nothing read in between
+                st["then"] = [rng.choice(("remove", "add")), rng.below(3), self.gen_amount(rng)]
+            return st
         return {"op": "restart"}
 
     # ------------------------------------------------------------------ world
@@ -283,6 +287,41 @@ class C16Saturate(Scenario):
                     else:
                         second.remove(self.key(k), -n)  # a negative amount in the recipe is a removal
                 self.call(lambda: o.join(second), "join", sig)
+                then = step.get("then")
+                if then:
+                    # a second update before anything is read: applied to a copy of the model first, so that the
+                    # join's own clause below is still judged on what the join alone must have produced
+                    self.ctx.fault("update_right_after_join")
+                    t_op, t_k, t_n = then
+                    if t_op == "add":
+                        self.call(lambda: o.add(self.key(t_k), t_n), f"add({t_k}, {t_n}) right after join", sig)
+                    else:
+                        self.call(lambda: o.remove(self.key(t_k), t_n), f"remove({t_k}, {t_n}) right after join", sig)
+                    got, total = self.read_cells()
+                    sgn = 1 if t_op == "add" else -1
+                    want_cells = []
+                    for i in range(len(got)):
+                        a, b = self.cells[i], cells2[i]
+                        opts = {clamp(a + b, I32MIN, I32MAX)}
+                        if a in (I32MIN, I32MAX):
+                            opts.add(a)
+                        want_cells.append(opts)
+                    for p in self.visits(t_k):
+                        want_cells[p] = {clamp(v + sgn * t_n, I32MIN, I32MAX) for v in want_cells[p]}
+                    for i in range(len(got)):
+                        if got[i] not in want_cells[i]:
+                            raise Violation("cell_wrong", f"join then {t_op}({t_k}, {t_n}): cell {i} is {got[i]}, expected one "
+                                                          f"of {sorted(want_cells[i])}", sig)
+                    want_total = clamp(clamp(self.total + tot2, I64MIN, I64MAX) + sgn * t_n, I64MIN, I64MAX)
+                    if total != want_total or o.elements_added != want_total:
+                        raise Violation("total_wrong", f"join then {t_op}({t_k}, {t_n}) without a read in between: element "
+                                                       f"total {total}, expected {want_total}", sig)
+                    self.cells = got
+                    self.total = want_total
+                    self.second = (second, cells2, tot2)
+                    self.compare("join + update", sig)
+                    ctx.state(self.kind, tuple(min(c, 3) if c < lim_hi else -1 for c in self.cells))
+                    return {"r": "ok", "total": self.total}
                 got, total = self.read_cells()
                 for i in range(len(got)):
                     a, b = self.cells[i], cells2[i]
